@@ -365,7 +365,7 @@ func TestVerifC18(t *testing.T) {
 		}
 	}
 	r.Set("v9plus_compact_prefix_width_pairs_batches", pairs) // "<codec>:<prefix bytes before>><after compression>"
-	if os.Getenv("C18_ONLY") == "" && !total.TimedOut {
+	if os.Getenv("C18_ONLY") == "" && !total.TimedOut && total.ViolCases == 0 { // (a violating run may well lose pairs: undecodable batches are not classified)
 		var unseen []string
 		for _, p := range expectedPairs(thorough) {
 			if pairs[p] == 0 {
